@@ -16,6 +16,7 @@ import (
 	"oss.terrastruct.com/d2/d2lib"
 	"oss.terrastruct.com/d2/d2renderers/d2svg"
 	"oss.terrastruct.com/d2/d2target"
+	"oss.terrastruct.com/d2/d2themes/d2themescatalog"
 	"oss.terrastruct.com/d2/lib/log"
 	"oss.terrastruct.com/d2/lib/textmeasure"
 )
@@ -61,6 +62,20 @@ func c3rBoards(d *d2target.Diagram) []*d2target.Diagram {
 	}
 	for _, l := range d.Steps {
 		out = append(out, c3rBoards(l)...)
+	}
+	return out
+}
+
+// c3rThemeIDs lists the catalog's theme ids (all, or the dark catalog only).
+func c3rThemeIDs(darkOnly bool) []int64 {
+	var out []int64
+	if !darkOnly {
+		for _, t := range d2themescatalog.LightCatalog {
+			out = append(out, t.ID)
+		}
+	}
+	for _, t := range d2themescatalog.DarkCatalog {
+		out = append(out, t.ID)
 	}
 	return out
 }
